@@ -58,7 +58,8 @@ fn stream_shapes() -> Vec<Shape> {
 /// Generation profile per property.  `thorough` raises the size caps.
 pub fn profile_for(prop: &str, thorough: bool) -> Profile {
     let max_n = if thorough { 40 } else { 24 };
-    let b = Profile::base(max_n);
+    let mut b = Profile::base(max_n);
+    b.coop = true;
     let streams = stream_shapes();
     match prop {
         "C01" => b.with_apis(&CONCURRENT, 8, 1).with_apis(&streams, 10, 2),
@@ -246,6 +247,31 @@ pub fn labels(cfg: &RunCfg, r: &SingleResult) -> Vec<String> {
     }
     if st.max_completes_between_polls >= 2 {
         l.push("schedule:>=2_completions_between_polls".into());
+    }
+    if st.max_completes_between_polls >= 16 {
+        l.push("schedule:>=16_completions_between_polls".into());
+    }
+    if st.max_completes_between_polls >= 129 {
+        l.push("schedule:>=129_completions_between_polls".into());
+    }
+    if cfg.coop {
+        l.push("mode:inside_tokio_task_polls(coop budget)".into());
+        let mut longest = 0usize;
+        let mut cur = 0usize;
+        for a in &r.acts {
+            if *a == Act::Yield {
+                longest = longest.max(cur);
+                cur = 0;
+            } else {
+                cur += 1;
+            }
+        }
+        if longest >= 65 {
+            l.push("coop:task_poll_with_>=65_actions".into());
+        }
+    }
+    if !cfg.instant.is_empty() {
+        l.push("user_futures:some_complete_on_first_poll".into());
     }
     if st.quiet_points > 0 {
         l.push("schedule:has_quiet_point".into());
